@@ -545,7 +545,8 @@ def _update_futures_in_input(args: tuple, kwargs: dict):
             return arg
 
     # the positional arguments stay a tuple, as they are when the call does not pass the dependency resolution
-    args = tuple(get_result(arg=arg) for arg in args)
+    # (built from a list: an exception of an input - StopIteration in particular - must not pass through a generator)
+    args = tuple([get_result(arg=arg) for arg in args])
     kwargs = {key: get_result(arg=value) for key, value in kwargs.items()}
     return args, kwargs
 
